@@ -27,23 +27,26 @@ pub struct Regime {
     pub pool: usize,
     pub legacy_at: Option<u64>, // step at which open orders are re-keyed to un-hyphenated ids
     pub attrs_pct: u64,
+    /// sizes around 2^31 / 2^32 / 2^63 / 2^64 (integer-narrowing boundaries)
+    pub narrow: bool,
 }
 
 pub const TRADE: Regime = Regime {
     name: "trade", precs: &[0, 0, 0, 0, 1, 1, 2, 3, 4, 6, 9, 18], ks: &[1, 1, 1, 2, 5, 10, 7, 25, 100], price_mant_max: 40, lots_max: 5,
-    rates: RATES, fee_pct: 60, hostile_pct: 0, steps: (40, 120), chain_change_pct: 1, modify_pct: 4, create_bias: 0, pool: 10, legacy_at: None, attrs_pct: 40,
+    rates: RATES, fee_pct: 60, hostile_pct: 0, steps: (40, 120), chain_change_pct: 1, modify_pct: 4, create_bias: 0, pool: 10, legacy_at: None, attrs_pct: 40, narrow: false,
 };
 pub const HOSTILE: Regime = Regime { name: "hostile", hostile_pct: 50, chain_change_pct: 3, ..TRADE };
 pub const GRIND: Regime = Regime {
     name: "grind", precs: &[0, 0, 1], ks: &[1, 1, 1, 3, 10], price_mant_max: 12, lots_max: 50,
-    rates: &["0.5", "0.33", "0.25", "0.1", "0.05", "1", "0.015", "0.125"], fee_pct: 95, hostile_pct: 0, steps: (80, 200), chain_change_pct: 0, modify_pct: 2, create_bias: 0, pool: 6, legacy_at: None, attrs_pct: 0,
+    rates: &["0.5", "0.33", "0.25", "0.1", "0.05", "1", "0.015", "0.125"], fee_pct: 95, hostile_pct: 0, steps: (80, 200), chain_change_pct: 0, modify_pct: 2, create_bias: 0, pool: 6, legacy_at: None, attrs_pct: 0, narrow: false,
 };
 pub const DEEP: Regime = Regime { name: "deep", steps: (200, 400), create_bias: 25, lots_max: 8, ..TRADE };
 pub const BIG: Regime = Regime {
     name: "big", precs: &[9, 12, 18, 18], ks: &[1, 3, 1000, 1_000_000], price_mant_max: 4_000_000_000, lots_max: 5,
-    rates: RATES, fee_pct: 70, hostile_pct: 5, steps: (40, 100), chain_change_pct: 0, modify_pct: 2, create_bias: 0, pool: 10, legacy_at: None, attrs_pct: 20,
+    rates: RATES, fee_pct: 70, hostile_pct: 5, steps: (40, 100), chain_change_pct: 0, modify_pct: 2, create_bias: 0, pool: 10, legacy_at: None, attrs_pct: 20, narrow: false,
 };
 pub const LEGACY: Regime = Regime { name: "legacy", legacy_at: Some(25), steps: (50, 90), ..TRADE };
+pub const NARROW: Regime = Regime { name: "narrow", precs: &[0], ks: &[1], price_mant_max: 12, narrow: true, steps: (40, 90), fee_pct: 70, ..TRADE };
 pub const ROLES: Regime = Regime { name: "roles", pool: 4, fee_pct: 90, steps: (40, 100), ..TRADE };
 
 pub fn regime_by_name(n: &str) -> Regime {
@@ -54,6 +57,7 @@ pub fn regime_by_name(n: &str) -> Regime {
         "big" => BIG,
         "legacy" => LEGACY,
         "roles" => ROLES,
+        "narrow" => NARROW,
         _ => TRADE,
     }
 }
@@ -178,6 +182,8 @@ fn funds_for(w: &World, denom: &str, amt: u128) -> Vec<(String, u128)> {
     }
 }
 
+const NARROW_SIZES: &[u128] = &[(1 << 31) - 1, 1 << 31, (1 << 32) - 1, 1 << 32, (1 << 32) + 1, (1 << 63) - 1, 1 << 63, (1u128 << 64) - 1, 1u128 << 64, (1u128 << 64) + 5, 3 * (1u128 << 32), (1u128 << 64) + (1u128 << 32)];
+
 pub struct GenState {
     pub next_id: u64,
     pub id_base: u64,
@@ -221,14 +227,14 @@ pub fn gen_step(r: &mut Rng, rg: &Regime, w: &World, g: &mut GenState) -> Op {
     }
     if kind < 18 || (asks.is_empty() && kind < 40) {
         let base = if !cfg.convs.is_empty() && r.chance(50) { r.pick(&cfg.convs).clone() } else { cfg.base.clone() };
-        let size = cfg.inc * (1 + { let lm = if r.chance(10) { rg.lots_max * 8 } else { rg.lots_max }; r.below(lm) } as u128);
+        let size = if rg.narrow { *r.pick(NARROW_SIZES) } else { cfg.inc * (1 + { let lm = if r.chance(10) { rg.lots_max * 8 } else { rg.lots_max }; r.below(lm) } as u128) };
         let sender = r.pick(&pool).clone();
         let quote = if cfg.quotes.is_empty() { "q0".to_string() } else { r.pick(&cfg.quotes).clone() };
         let id = fresh_id(r, g, &book, true);
         return exec_op(&sender, funds_for(w, &base, size), json!({"create_ask": {"id": id, "base": base, "quote": quote, "price": gen_price(r, rg, cfg.prec as u32, size), "size": size.to_string()}}));
     }
     if kind < 36 || (bids.is_empty() && kind < 60) {
-        let size = cfg.inc * (1 + { let lm = if r.chance(10) { rg.lots_max * 8 } else { rg.lots_max }; r.below(lm) } as u128);
+        let size = if rg.narrow { *r.pick(NARROW_SIZES) } else { cfg.inc * (1 + { let lm = if r.chance(10) { rg.lots_max * 8 } else { rg.lots_max }; r.below(lm) } as u128) };
         // bias towards crossing an existing ask
         let price = if !asks.is_empty() && r.chance(45) { r.pick(&asks).price.clone() } else { gen_price(r, rg, cfg.prec as u32, size) };
         let p = match parse_dec(&price) {
@@ -272,7 +278,10 @@ pub fn gen_step(r: &mut Rng, rg: &Regime, w: &World, g: &mut GenState) -> Op {
         let arem = a.size;
         let brem = b.rem_base().max(0) as u128;
         let m = arem.min(brem).max(1);
-        let size = match r.below(5) {
+        let size = if rg.narrow && r.chance(60) {
+            let c = *r.pick(&[1u128 << 31, 1 << 32, (1 << 32) + 1, 1u128 << 63, 1u128 << 64, (1u128 << 64) - 1, 1]);
+            c.min(m)
+        } else { match r.below(5) {
             0 => m,
             1 => 1 + r.below128(m),
             2 => (cfg.inc * (1 + r.below(3) as u128)).min(m),
@@ -283,19 +292,19 @@ pub fn gen_step(r: &mut Rng, rg: &Regime, w: &World, g: &mut GenState) -> Op {
                 if step <= m { step * (1 + r.below128(m / step)) } else { m }
             }
             _ => m + r.below(2) as u128,
-        };
+        } };
         return exec_op(&exec, vec![], json!({"execute_match": {"ask_id": a.id, "bid_id": b.id, "price": price, "size": size.to_string()}}));
     }
     if kind < 83 && !asks.is_empty() {
         let a = *r.pick(&asks);
         let lots = (a.size / cfg.inc).max(1);
-        let size = if r.chance(25) { Value::Null } else { json!((cfg.inc * (1 + r.below128(lots.min(4)))).to_string()) };
+        let size = if r.chance(25) { Value::Null } else if rg.narrow { json!((*r.pick(&[1u128, 1 << 31, 1 << 32, (1 << 32) - 1, 1u128 << 63])).min(a.size).to_string()) } else { json!((cfg.inc * (1 + r.below128(lots.min(4)))).to_string()) };
         return exec_op(&exec, vec![], json!({"reject_ask": {"id": a.id, "size": size}}));
     }
     if kind < 91 && !bids.is_empty() {
         let b = *r.pick(&bids);
         let lots = (b.rem_base().max(0) as u128 / cfg.inc).max(1);
-        let size = if r.chance(25) { Value::Null } else { json!((cfg.inc * (1 + r.below128(lots.min(4)))).to_string()) };
+        let size = if r.chance(25) { Value::Null } else if rg.narrow { json!((*r.pick(&[1u128, 1 << 31, 1 << 32, (1 << 32) - 1, 1u128 << 63])).min(b.rem_base().max(1) as u128).to_string()) } else { json!((cfg.inc * (1 + r.below128(lots.min(4)))).to_string()) };
         return exec_op(&exec, vec![], json!({"reject_bid": {"id": b.id, "size": size}}));
     }
     if kind < 94 && !asks.is_empty() {
